@@ -24,6 +24,11 @@ def main():
         except Inconclusive as e:
             print('INCONCLUSIVE: %s' % e)
             rc[0] = 2
+        except Exception as e:      # machinery failure (e.g. a MIR construct / library call without a rule): never a pass, never a violation
+            import traceback
+            print('INCONCLUSIVE: property=%s machinery error %s: %s' % (a.prop, type(e).__name__, str(e)[:300]))
+            traceback.print_exc()
+            rc[0] = 2
     t = threading.Thread(target=body)
     t.start()
     t.join()
